@@ -152,7 +152,7 @@ def on_shape(shape):
 
 
 def groups(tier):
-    opts = ["plain", "inferral", "symmetry", "factory", "factory2", "finite", "finite-ev", "k", "ku", "iterative", "oneway", "two"]
+    opts = ["plain", "inferral", "symmetry", "factory", "factory2", "finite", "finite-ev", "k", "ku", "iterative", "oneway", "two", "drop"]
     if tier == "thorough":
         opts += ["inferral-symmetry", "inferral-factory-finite", "k-inferral", "ku-factory", "kk"]
     return e2e.std_groups(tier, dbs=("base",), opts=opts, rng=False)
